@@ -84,10 +84,18 @@ class LockInfo:
         # 1b. read guards of the half lock are held "reader locks": writers wait for them, so holding one while acquiring a writer
         #     mutex is a lock-order edge like any other
         self.read_fns = {}
-        for m in F.inst:
-            mm = re.match(r"^signal_hook_registry::half_lock::HalfLock::<(.*)>::read$", m.name)
-            if mm and m.body is not None:
-                self.read_fns[m.id] = "signal_hook_registry::half_lock::HalfLock<%s>.readers" % mm.group(1)
+        self.reader_lock_of = {}      # writer mutex lock id -> the ".readers" pseudo-lock of the same half lock
+        try:
+            from .rules import hl as _hl
+            R_ = _hl.Roles(F)
+            for T in _hl.lock_types(F):
+                V = _hl.View(F, R_, T)
+                rl = "signal_hook_registry::half_lock::HalfLock<%s>.readers" % T
+                for m in V.readers:
+                    self.read_fns[m.id] = rl
+                self.reader_lock_of["signal_hook_registry::half_lock::HalfLock<%s>.%s" % (T, R_.mutex[1])] = rl
+        except AnchorLost:
+            pass
         # 2. wrappers: fixpoint — a function whose return type is a token type and that holds a token at return
         changed = True
         tokens = {}   # inst id -> {local: lock id}
@@ -236,6 +244,27 @@ class LockInfo:
                         a.tolerant = uses_inner
                         a.how = "match with into_inner arm" if uses_inner else "match without a poison-recovering arm"
                         return
+
+    def analyse_body(self, nm):
+        """lock facts of an arbitrary body (a normal form): ([(bb, lock id, kind)] acquisitions, {lock id: held blocks})"""
+        F = self.F
+        direct = []
+        acq = []
+        for bb, t in nm.calls():
+            if t.get("f") is None:
+                continue
+            c = F.inst[t["f"]]
+            if c.defp == MUTEX_LOCK:
+                lid = self.lock_id_of_mutex_expr(flow(nm).term_arg(bb, 0))
+                direct.append((bb, lid)); acq.append((bb, lid, "direct"))
+            elif t["f"] in self.wrappers:
+                acq.append((bb, self.wrappers[t["f"]], "wrapper"))
+        tk = self._tokens(nm, direct)
+        by_lock = {}
+        for l, lid in tk.items():
+            by_lock.setdefault(lid, set()).add(l)
+        regions = {lid: self._region(nm, locs) for lid, locs in by_lock.items()}
+        return acq, regions
 
     # ---- queries ---------------------------------------------------------------------------
     def held_calls(self, mid, lock):
